@@ -15,13 +15,14 @@
      0 agree                                  1 split differs             2 logical start differs
      3 proposals differ (later_locals=True)   4 proposals differ (later_locals=False)
      5 definition line differs                6 an item is not an undotted position for the model
+     7 attribute proposals differ (dotted position whose receiver the model knows to be a class)
      9 outside the model (cyclic superclasses)
      11 SPEC (visible_at) differs from CPython
      21 inside the theorems' domain but the model's proposals and the SPEC's visible names differ *)
 From Coq Require Import List NArith Bool PeanoNat.
 From RopeVerif.Lib Require Import Text.
 From RopeVerif.C15 Require Import Syntax Scoping RopeScopes Fragment.
-From RopeVerif.C20 Require Import Split Complete.
+From RopeVerif.C20 Require Import Split Complete Dotted.
 Import ListNotations.
 
 Record case := {
@@ -38,7 +39,8 @@ Record case := {
   c_lstarts : list N;
   c_items : list (N * bool * list (ident * N));
   c_defs : list (path * ident * option N);
-  c_py_visible : list (path * list ident)
+  c_py_visible : list (path * list ident);
+  c_ditems : list (N * list (ident * N))        (* dotted positions whose receiver is a plain name: offset, proposals *)
 }.
 
 Definition opt_N_eqb (a b : option N) : bool :=
@@ -122,6 +124,39 @@ Fixpoint check_items (c : case) (w : world) (ut : list (ident * text)) (items : 
       if N.eqb code 0 then check_items c w ut r else code
   end.
 
+(* dotted items: the receiver must be the spelling of an identifier; where the model knows it denotes a class the
+   attribute proposals are compared (scope codes 6 attribute / 4 imported), elsewhere the item is outside the model *)
+Fixpoint drows_ok (w : world) (c : path) (starting : text) (ut : list (ident * text)) (obs : list (ident * N)) : bool :=
+  match ut with
+  | [] => match obs with [] => true | _ => false end
+  | xt :: ut' =>
+      let '(got, rest) := take_obs (fst xt) obs (0%N, false) in
+      let want := if is_prefix starting (snd xt)
+                  then match class_attribute w c (fst xt) with Some k => k | None => 0%N end else 0%N in
+      N.eqb want (fst got) && negb (snd got) && drows_ok w c starting ut' rest
+  end.
+
+Definition ditem_code (c : case) (w : world) (ut : list (ident * text)) (o : N) (obs : list (ident * N)) : N :=
+  match split_before (c_kws c) (c_regions c) (c_code c) (c_raw c) o with
+  | Some (e, starting, so) =>
+      match find (fun xt => text_eqb (snd xt) e) ut with
+      | Some (r, _) =>
+          let lineno := line_of (c_raw c) so in
+          match receiver_class w (holding_path w lineno) r with
+          | Some cp => if drows_ok w cp starting ut obs then 0%N else 7%N
+          | None => 100%N                                  (* outside the model *)
+          end
+      | None => 100%N
+      end
+  | None => 100%N
+  end.
+
+Fixpoint check_ditems (c : case) (w : world) (ut : list (ident * text)) (items : list (N * list (ident * N))) : bool :=
+  match items with
+  | [] => true
+  | (o, obs) :: r => negb (N.eqb (ditem_code c w ut o obs) 7) && check_ditems c w ut r
+  end.
+
 Definition check_defs (w : world) (defs : list (path * ident * option N)) : bool :=
   forallb (fun d => let '(q, x, l) := d in
                     if query_ok (w_inh w) (w_rt w) q x then opt_N_eqb (definition_line w q x) l else true) defs.
@@ -155,6 +190,7 @@ Definition run_case (c : case) : N :=
     else
       let code := check_items c w (universe_t c) (c_items c) in
       if negb (N.eqb code 0) then code
+      else if negb (check_ditems c w (universe_t c) (c_ditems c)) then 7%N
       else if negb (check_defs w (c_defs c)) then 5%N
       else if negb (check_py_visible c st) then 11%N
       else if in_fragment_C15 (c_prog c) then (if check_theorem c w st then 0%N else 21%N)
@@ -172,6 +208,14 @@ Definition mismatches (cs : list case) : list (N * N) := mismatches_from 0 cs.
 (* for the evidence: cases inside the theorems' domain *)
 Definition in_domain (cs : list case) : list N :=
   map (fun c => if in_fragment_C15 (c_prog c) then 1%N else 0%N) cs.
+
+(* for the evidence: dotted items the model covers (receiver known to be a class) *)
+Definition dotted_covered (cs : list case) : list N :=
+  map (fun c =>
+    let rt := rope_tree (c_prog c) in
+    let '(tbl, _) := rope_inh (c_builtins c) rt (c_idents c) in
+    let w := world_of (c_prog c) (c_layout c) (c_builtins c) (inh_of tbl) (universe c) (spell_of c) (c_kws c) in
+    N.of_nat (length (filter (fun it => N.eqb (ditem_code c w (universe_t c) (fst it) (snd it)) 0) (c_ditems c)))) cs.
 
 (* diagnostics for the harness: the model's answer at one offset *)
 Definition debug_item (c : case) (o : N) (ll : bool) : option (N * path * text * list (text * N)) :=
